@@ -20,36 +20,46 @@ MAX_CLOCK = 3
 INTERVAL = 900  # "at least every 15 minutes"
 
 
-def initial_file() -> bytes:
+def initial_file(large: bool = False) -> bytes:
     nodes = {1: Node(1, 17, "2.0", children={3: Child(3, 6, values={2: "on"})}, battery_level=40)}
+    if large:
+        # a big network: a saver that takes its time over it must still cope with the registry changing
+        for n in range(101, 100 + LARGE):
+            nodes[n] = Node(n, 17, "2.0", children={0: Child(0, 6, values={0: str(n)})})
     kind, val, vfs = pers.save_nodes(nodes)
     assert kind == "ok"
     return bytes(vfs.files[PATH])
 
 
+LARGE = 70
 _INITIAL = None
+_INITIAL_LARGE = None
 
 
 class Scenario:
     horizon = 3000
 
     def __init__(self, cfg: dict, loop) -> None:
-        global _INITIAL
+        global _INITIAL, _INITIAL_LARGE
         self.cfg = cfg
         self.loop = loop
         if _INITIAL is None:
             loop.leave()
             _INITIAL = initial_file()
+            _INITIAL_LARGE = initial_file(True)
             loop.enter()
         self.vfs = fsshim.VFS()
         self.vfs.log.clock = loop.time
         if cfg.get("file", "present") == "present":
             self.vfs.files[PATH] = bytearray(_INITIAL)
+        elif cfg.get("file") == "large":
+            self.vfs.files[PATH] = bytearray(_INITIAL_LARGE)
         self._cm = fsshim.installed(self.vfs)
         self._cm.__enter__()
         self.t = make_transport(cfg, loop, self)
         self.gw = Gateway(self.t, Config(persistence_file=PATH))
-        self.exit_event = asyncio.Event()
+        self.cmds: asyncio.Queue = asyncio.Queue()
+        self.mutations = 0
         self.exit_fired = False
         self.exit_time = None
         self.clock_fires = 0
@@ -120,7 +130,9 @@ class Scenario:
                         await gw.listen().__anext__()
                     except AIOMySensorsError:
                         pass
-                await self.exit_event.wait()
+                while await self.cmds.get() == "mutate":
+                    # the body handles a message that adds a node, and stays inside the context
+                    gw.nodes[20 + self.mutations] = Node(20 + self.mutations, 17, "2.2", sketch_name="presented meanwhile")
                 self.exit_time = self.loop.time()
                 # the body changes the registry once more just before it leaves
                 gw.nodes[9].battery_level = 77
@@ -149,8 +161,10 @@ class Scenario:
                     evs += ["job2:run-cancelled", "job2:drop-cancelled"]
                 else:
                     evs.append("job2")
-        if not self.exit_fired:
+        if not self.exit_fired and (self.cfg["body"] != "cancel" or self.entered):
             evs.append("exit")
+        if self.entered and not self.exit_fired and self.mutations < self.cfg.get("mutations", 0):
+            evs.append("mutate")
         if self.clock_fires < self.cfg.get("max_clock", MAX_CLOCK) and self.loop.next_timer() is not None and not self.main.done():
             evs.append("clock")
         evs += transport_events(self)
@@ -180,7 +194,17 @@ class Scenario:
                 self.saves_done_at_quiescent_exit = self.saves_completed()
             if self.loop.pending_jobs() or self.loop.ready_count():
                 self.nontrivial = True  # exit lands while the saver is in the middle of something
-            self.exit_event.set()
+            if self.cfg["body"] == "cancel":
+                # the application cancels the task that is inside the context (Task.cancel, as asyncio.run does on Ctrl-C)
+                self.exit_time = self.loop.time()
+                self.main.cancel()
+            else:
+                self.cmds.put_nowait("exit")
+        elif label == "mutate":
+            self.mutations += 1
+            if self.loop.pending_jobs() or self.loop.ready_count():
+                self.nontrivial = True
+            self.cmds.put_nowait("mutate")
         elif label == "clock":
             self.clock_fires += 1
             self.loop.advance()
@@ -237,11 +261,14 @@ class Scenario:
                     return viols
                 if cfg.get("file", "present") == "present" and self.seen_at_entry != [1]:
                     bad("file-not-loaded-on-entry", f"registry at entry was {self.seen_at_entry}, the file holds node 1")
+                if cfg.get("file") == "large" and self.seen_at_entry != [1, *range(101, 100 + LARGE)]:
+                    bad("file-not-loaded-on-entry", f"registry at entry was {self.seen_at_entry}, the file holds node 1 and {LARGE - 1} more")
                 if not self.disconnected():
                     bad("not-disconnected", f"the transport was not disconnected (calls {self.t.calls})")
                 if kind == "raise":
                     if isinstance(exc, asyncio.CancelledError):
-                        bad("cancelled-error-escaped", "CancelledError left the async with block")
+                        if cfg["body"] != "cancel":
+                            bad("cancelled-error-escaped", "CancelledError left the async with block")
                     elif isinstance(exc, RuntimeError) and str(exc) == "body":
                         if cfg["body"] != "raise":
                             bad("phantom-body-error", "body error without a raising body")
@@ -439,6 +466,15 @@ def configs(ctx: core.Ctx) -> list:
     for kind in ("tcp", "serial"):
         for body in ("return", "raise"):
             out.append({"body": body, "connect": "ok", "disconnect": "ok", "file": "present", "transport": kind, "body_read": "eof"})
+    # a big registry in the file
+    out.append({"body": "return", "connect": "ok", "disconnect": "ok", "file": "large", "transport": "script", "max_clock": 0 if ctx.quick else 1, "mutations": 1})
+    if not ctx.quick:
+        out.append({"body": "raise", "connect": "ok", "disconnect": "ok", "file": "large", "transport": "script", "max_clock": 1, "mutations": 1})
+        out.append({"body": "return", "connect": "ok", "disconnect": "ok", "file": "present", "transport": "script", "max_clock": 1, "mutations": 2})
+    # the task inside the context is cancelled from outside (Task.cancel), for every transport kind
+    for kind in ("script", "tcp", "serial", "mqtt"):
+        for disconnect in ("ok", "fail"):
+            out.append({"body": "cancel", "connect": "ok", "disconnect": disconnect, "file": "present", "transport": kind, "max_clock": 1})
     # the same gateway object is entered a second time; another gateway is inside its own context meanwhile
     out.append({"body": "return", "connect": "ok", "disconnect": "ok", "file": "present", "transport": "script", "earlier": "immediate"})
     out.append({"body": "raise", "connect": "ok", "disconnect": "ok", "file": "missing", "transport": "script", "earlier": "immediate"})
@@ -469,7 +505,7 @@ def run(ctx: core.Ctx) -> core.Report:
         "evaluations": res["executions"],
         "distinct_nontrivial": res["nontrivial"],
         "distinct_outcomes": res["distinct_outcomes"],
-        "rule": "every execution is a distinct schedule of {complete the next executor job (open/read/write/close of a load or save), advance the clock to the next timer (<= 3 firings), let the body exit} x body returns/raises x connect/disconnect ok/fail; a cancelled executor job branches into 'takes effect' and 'dropped'; non-trivial = the exit lands while the saver has a file operation or a step pending, or a cancelled job exists",
+        "rule": "every execution is a distinct schedule of {complete the next executor job (open/read/write/close of a load or save), advance the clock to the next timer (<= 3 firings), let the body handle a message that adds a node (0-2 times), let the body exit} x body returns / raises / is cancelled from outside x connect/disconnect ok/fail x small / 70-node file; a cancelled executor job branches into 'takes effect' and 'dropped'; non-trivial = the exit lands while the saver has a file operation or a step pending, or a cancelled job exists",
         "exhaustive": True,
         "bounds": {"K_deviations": K if K < 99 else "unbounded: every schedule (script transport)", "K_deviations_builtin_transports": K2, "clock_firings": MAX_CLOCK, "configs": len(configs(ctx)), "max_choice_points": res["max_points"]},
         "samples": [res["sample"]],
